@@ -5,7 +5,7 @@ ID = 'C10'
 LEDGER_FILES = ['a5/core/compact.py', 'a5/core/cell_info.py']
 MUST_ENTER = [('a5/core/compact.py', 'uncompact')]
 RULE = ('lists of 0..40 cells (repeats allowed, r in -1..29) and targets t in 0..29 with the per-cell expansion factor capped at 4^6; '
-        'world cell, aperture jumps, t=r identity, index-adjacent sibling runs straddling two parents, returned lists scrambled and the call repeated, inputs finer than t (must raise), tuple arguments; oracle = hierarchy model '
+        'world cell, aperture jumps, t=r identity, index-adjacent sibling runs straddling two parents, children lists with one local edit to order or multiplicity (swap, repeat, cousin, drop, rotate), returned lists scrambled and the call repeated, inputs finer than t (must raise), tuple arguments; oracle = hierarchy model '
         '(block i == descendants of input i, each mapping back through cell_to_parent). distinct = distinct (list, t); '
         'non-trivial = at least one input strictly coarser than t or an error case')
 ASSUMPTIONS = ['expansion factor bounded to keep outputs enumerable, as the quantifier states']
@@ -136,6 +136,37 @@ def make_case(rnd, a5, gen):
         t = min(t, r + 5)
         if rnd.random() < 0.3:
             cells.append(gen.random_cell(rnd, a5, rnd.randint(r, t)))
+    if rnd.random() < 0.1 and t >= 1:
+        # the children list of one cell (what cell_to_children or an uncompacted cover hands out) with one local edit to its order
+        # or multiplicity: two entries swapped, one entry repeated in place of another, one replaced by a cousin or dropped, rotated
+        r = rnd.randint(max(0, t - 4), t - 1) if rnd.random() < 0.8 else -1
+        if r + 1 > t or (r == -1 and t > 3):
+            r = t - 1
+        g = 0 if r == -1 else gen.random_cell(rnd, a5, r)
+        kids = a5.cell_to_children(g)
+        i, j = rnd.sample(range(len(kids)), 2)
+        edit = rnd.choice(('swap', 'swap_middle', 'repeat', 'repeat_middle', 'cousin', 'drop', 'rotate', 'none'))
+        if edit == 'swap':
+            kids[i], kids[j] = kids[j], kids[i]
+        elif edit == 'swap_middle':
+            kids[1], kids[2] = kids[2], kids[1]
+        elif edit == 'repeat':
+            kids[i] = kids[j]
+        elif edit == 'repeat_middle':
+            i, j = rnd.sample(range(1, len(kids) - 1), 2)
+            kids[i] = kids[j]
+        elif edit == 'cousin':
+            other = a5.cell_to_children(0 if r == -1 else gen.random_cell(rnd, a5, r))
+            kids[i] = other[min(i, len(other) - 1)]
+        elif edit == 'drop':
+            del kids[i]
+        elif edit == 'rotate':
+            kids = kids[i:] + kids[:i]
+        pre = cells[:rnd.randint(0, 2)] if not isinstance(cells, tuple) else []
+        pre = [c for c in pre if a5.get_resolution(c) <= t]
+        cells = pre + kids + ([gen.random_cell(rnd, a5, rnd.randint(max(0, t - 3), t))] if rnd.random() < 0.4 else [])
+        if rnd.random() < 0.3:
+            cells = cells + a5.cell_to_children(g)
     if rnd.random() < 0.1:
         cells = tuple(cells)
     return cells, t
